@@ -20,7 +20,7 @@ import copy
 import json
 import os
 
-from .core import VERIF, unparse, dotted
+from .core import VERIF, unparse, dotted, strip_docstring
 
 BUILTIN_SCOPE_SENSITIVE = {"eval", "exec", "locals", "globals", "vars"}
 FRAME_SENSITIVE = {"capture", "_getframe", "currentframe", "stack", "locals", "globals", "vars", "eval", "exec", "design_matrices", "model_description"}
@@ -275,6 +275,13 @@ class Inliner:
 
     # ---- helper lookup ------------------------------------------------------------------
     def _helper_for(self, caller, call):
+        h, self_expr = self._helper_for0(caller, call)
+        # a decorator wraps the function (a cache, a registration, a context manager): its body alone is not the callee
+        if h is not None and any(d not in ("staticmethod", "classmethod") for d in h.decorators):
+            return None, None
+        return h, self_expr
+
+    def _helper_for0(self, caller, call):
         """FunctionInfo of the new helper called by `call` inside `caller`, plus the expression bound to self (or None)"""
         self._cls_call_ok = False
         f = call.func
@@ -413,6 +420,9 @@ class Inliner:
             return False
         if helper.is_property:
             return False
+        # a decorator wraps the function (a cache, a registration, a context): the body alone is not the callee
+        if any(d not in ("staticmethod", "classmethod") for d in helper.decorators):
+            return False
         if helper.module is not caller.module and self._free_globals(helper, caller) is None:
             return False
         # a classmethod called through the class name (`Cls._m(...)`) is a function of the class: `cls` is that name; called
@@ -534,6 +544,8 @@ class Inliner:
             return None
         h, self_expr = self._helper_for(fn, s.iter)
         if h is None or h.qual == fn.qual or h.nested or h.is_property or h.is_classmethod:
+            return None
+        if any(d != "staticmethod" for d in h.decorators) or (h.module is not fn.module and self._free_globals(h, fn) is None):
             return None
         hb = self._body(h)
         yields = [n for x in hb for n in ast.walk(x) if isinstance(n, (ast.Yield, ast.YieldFrom))]
@@ -689,7 +701,7 @@ class Inliner:
         for m in prog.modules.values():
             for g, vals in m.globals.items():
                 q = f"{m.name}.{g}"
-                if q not in self.inv_globals and len(vals) == 1 and vals[0] is not None and _is_literal(vals[0]):
+                if q not in self.inv_globals and len(vals) == 1 and vals[0] is not None and (_is_literal(vals[0]) or self._class_tuple(m, vals[0])):
                     new_globals[q] = vals[0]
         new_cattrs = {}
         for c in prog.classes.values():
@@ -755,15 +767,26 @@ class Inliner:
                 del new_cattrs[(cq, a)]
         if not new_globals and not new_cattrs:
             return
-        for fq, f in prog.functions.items():
-            stores = {n.id for n in ast.walk(f.node) if isinstance(n, ast.Name) and isinstance(n.ctx, ast.Store)} | set(f.params)
+        def home_module(q):
+            return prog.modules.get(q.rsplit(".", 1)[0])
 
+        def hygienic(value, src, dst):
+            """names inside the constant (a tuple of classes) must mean in dst what they mean in src"""
+            if src is dst:
+                return True
+            for n in ast.walk(value):
+                if isinstance(n, ast.Name) and n.id not in BUILTIN_TYPE_NAMES:
+                    if src is None or prog.resolve(src, n.id) != prog.resolve(dst, n.id) or prog.resolve(dst, n.id)[0] == "ext" and n.id not in dst.imports:
+                        return False
+            return True
+
+        def make_T(module, cls, stores, label):
             class T(ast.NodeTransformer):
                 def visit_Name(s_, node):
                     if isinstance(node.ctx, ast.Load) and node.id not in stores:
-                        kind, q = prog.resolve(f.module, node.id)
-                        if kind == "var" and q in new_globals:
-                            self.const_subst.append((fq, q))
+                        kind, q = prog.resolve(module, node.id)
+                        if kind == "var" and q in new_globals and hygienic(new_globals[q], home_module(q), module):
+                            self.const_subst.append((label, q))
                             return ast.copy_location(copy.deepcopy(new_globals[q]), node)
                     return node
 
@@ -771,19 +794,64 @@ class Inliner:
                     s_.generic_visit(node)
                     if isinstance(node.ctx, ast.Load) and isinstance(node.value, ast.Name):
                         cq = None
-                        if f.cls is not None and node.value.id in ("self", "cls") or (f.cls is not None and node.value.id == f.cls.name):
-                            cq = f.cls.qual
+                        if cls is not None and node.value.id in ("self", "cls") or (cls is not None and node.value.id == cls.name):
+                            cq = cls.qual
                         else:
-                            kind, q = prog.resolve(f.module, node.value.id)
+                            kind, q = prog.resolve(module, node.value.id)
                             if kind == "class":
                                 cq = q
-                        if cq and (cq, node.attr) in new_cattrs:
-                            self.const_subst.append((fq, f"{cq}.{node.attr}"))
+                            elif kind == "module" and f"{q}.{node.attr}" in new_globals and hygienic(new_globals[f"{q}.{node.attr}"], prog.modules.get(q), module):
+                                self.const_subst.append((label, f"{q}.{node.attr}"))
+                                return ast.copy_location(copy.deepcopy(new_globals[f"{q}.{node.attr}"]), node)
+                        if cq and (cq, node.attr) in new_cattrs and hygienic(new_cattrs[(cq, node.attr)], prog.classes[cq].module if cq in prog.classes else None, module):
+                            self.const_subst.append((label, f"{cq}.{node.attr}"))
                             return ast.copy_location(copy.deepcopy(new_cattrs[(cq, node.attr)]), node)
                     return node
 
-            T().visit(f.node)
+            return T()
+
+        for fq, f in prog.functions.items():
+            stores = {n.id for n in ast.walk(f.node) if isinstance(n, ast.Name) and isinstance(n.ctx, ast.Store)} | set(f.params)
+            make_T(f.module, f.cls, stores, fq).visit(f.node)
             ast.fix_missing_locations(f.node)
+        # the values of class attributes and module globals (tables keyed by the new constants)
+        for m in prog.modules.values():
+            for st in m.tree.body:
+                if isinstance(st, (ast.Assign, ast.AnnAssign)) and st.value is not None:
+                    q_self = {f"{m.name}.{t.id}" for t in (st.targets if isinstance(st, ast.Assign) else [st.target]) if isinstance(t, ast.Name)}
+                    if q_self & set(new_globals):
+                        continue
+                    old_v = st.value
+                    st.value = make_T(m, None, set(), f"{m.name}.<module>").visit(st.value)
+                    ast.fix_missing_locations(st)
+                    for g, vals in m.globals.items():
+                        m.globals[g] = [st.value if v is old_v else v for v in vals]
+                elif isinstance(st, ast.ClassDef):
+                    c = m.classes.get(st.name)
+                    for cs in st.body:
+                        if isinstance(cs, (ast.Assign, ast.AnnAssign)) and cs.value is not None and c is not None:
+                            names = [t.id for t in (cs.targets if isinstance(cs, ast.Assign) else [cs.target]) if isinstance(t, ast.Name)]
+                            if any((c.qual, a) in new_cattrs for a in names):
+                                continue
+                            class_level = {x.id for x2 in st.body if isinstance(x2, (ast.Assign, ast.AnnAssign)) for x in ast.walk(x2) if isinstance(x, ast.Name) and isinstance(x.ctx, ast.Store)}
+                            old_v = cs.value
+                            cs.value = make_T(m, None, class_level, f"{c.qual}.<class>").visit(cs.value)
+                            ast.fix_missing_locations(cs)
+                            for a in names:
+                                if c.class_attrs.get(a) is old_v:
+                                    c.class_attrs[a] = cs.value
+
+    def _class_tuple(self, m, v):
+        """`(Variable, Call, Term)`: a tuple of classes of the package / builtin types (for isinstance): immutable, and a class
+        name is bound once in its module"""
+        if not (isinstance(v, ast.Tuple) and v.elts):
+            return False
+        for e in v.elts:
+            if isinstance(e, ast.Name) and e.id in BUILTIN_TYPE_NAMES:
+                continue
+            if not (isinstance(e, ast.Name) and self.prog.resolve(m, e.id)[0] == "class" and len(m.globals.get(e.id, [])) == 0):
+                return False
+        return True
 
     def inline_properties(self):
         """N1b: a NEW read-only property whose body is `return <expression over self>` is replaced, at every `self.<name>`
@@ -1128,12 +1196,59 @@ def normalise_expressions(prog):
             out.append(st)
         return out
 
+    # marker classes: no state of their own at construction (`__init__(self)`), equal to every instance of their type
+    markers = set()
+    for c in prog.classes.values():
+        ini, eq = c.methods.get("__init__"), c.methods.get("__eq__")
+        if ini is not None and eq is not None and len(ini.params) == 1 and not ini.node.args.vararg and not ini.node.args.kwarg and len(eq.params) == 2:
+            b = strip_docstring(eq.node.body)
+            if len(b) == 1 and isinstance(b[0], ast.Return) and b[0].value is not None \
+                    and unparse(b[0].value) == f"isinstance({eq.params[1]}, type({eq.params[0]}))":
+                markers.add(c.name)
+
+    def forward_markers(fnode):
+        """`i = Intercept()` bound once at the top of a function and only compared / searched / inserted afterwards: every use is
+        the constructor call again (instances of a marker class are interchangeable as long as none is modified)"""
+        cands = {}
+        for st in fnode.body:
+            if isinstance(st, ast.Assign) and len(st.targets) == 1 and isinstance(st.targets[0], ast.Name) and isinstance(st.value, ast.Call) \
+                    and isinstance(st.value.func, ast.Name) and st.value.func.id in markers and not st.value.args and not st.value.keywords:
+                cands[st.targets[0].id] = st
+        if not cands:
+            return
+        parents = {}
+        for par in ast.walk(fnode):
+            for ch in ast.iter_child_nodes(par):
+                parents[id(ch)] = par
+        for name, st in list(cands.items()):
+            uses = [n for n in ast.walk(fnode) if isinstance(n, ast.Name) and n.id == name]
+            stores = [n for n in uses if not isinstance(n.ctx, ast.Load)]
+            loads = [n for n in uses if isinstance(n.ctx, ast.Load)]
+            if len(stores) != 1 or any(isinstance(parents.get(id(n)), ast.Attribute) for n in loads) \
+                    or sum(1 for n in loads if isinstance(parents.get(id(n)), ast.Call) and n in parents[id(n)].args
+                           and isinstance(parents[id(n)].func, ast.Attribute) and parents[id(n)].func.attr in ("append", "insert", "add")) > 1 \
+                    or any(isinstance(parents.get(id(n)), (ast.Return, ast.Yield, ast.Starred, ast.keyword)) for n in loads):
+                del cands[name]
+        if not cands:
+            return
+
+        class F(ast.NodeTransformer):
+            def visit_Name(self, n):
+                if isinstance(n.ctx, ast.Load) and n.id in cands:
+                    return ast.copy_location(copy.deepcopy(cands[n.id].value), n)
+                return n
+
+        drop = {id(st) for st in cands.values()}
+        fnode.body = [F().visit(st) for st in fnode.body if id(st) not in drop]
+
     for f in prog.functions.values():
         if f.parent is not None:
             continue
         try:
             N0(f.node).visit(f.node)
             f.node.body = split_tuple_assignments(f.node.body)
+            if markers:
+                forward_markers(f.node)
             ast.fix_missing_locations(f.node)
         except Exception:  # noqa: BLE001
             pass
@@ -1160,9 +1275,23 @@ def undo_renames(prog):
         return
     ref = Program(REF_ROOT, normalise=False)
 
+    def rename_params(fnode, mapping):
+        for a in fnode.args.posonlyargs + fnode.args.args + fnode.args.kwonlyargs:
+            if a.arg in mapping:
+                a.arg = mapping[a.arg]
+        for n in ast.walk(fnode):
+            if isinstance(n, ast.Name) and n.id in mapping:
+                n.id = mapping[n.id]
+
     def nameless(fnode):
+        # the name and the spelling of the parameters do not count (callers of a private helper pass them by position; keyword
+        # callers are renamed back together with the parameters below)
         f = copy.deepcopy(fnode)
         f.name = "F"
+        params = [a.arg for a in f.args.posonlyargs + f.args.args + f.args.kwonlyargs]
+        bound = {n.id for n in ast.walk(f) if isinstance(n, ast.Name)} | set(params)
+        if not any(f"_p{i}" in bound for i in range(len(params))):
+            rename_params(f, {p_: f"_p{i}" for i, p_ in enumerate(params)})
         return canon(f)
 
     renames = {}
@@ -1188,6 +1317,21 @@ def undo_renames(prog):
             if new not in renames and not (used_old and r.cls is None):
                 renames[new] = old
                 prog.renamed.append((f"{container}.{new}", q))
+                # parameters renamed along with the function: back to the reference spelling (inside the function, and as
+                # keywords at its call sites)
+                fn_ = same[0].node
+                cur_p = [a.arg for a in fn_.args.posonlyargs + fn_.args.args + fn_.args.kwonlyargs]
+                ref_p = [a.arg for a in r.node.args.posonlyargs + r.node.args.args + r.node.args.kwonlyargs]
+                pm = {c_: r_ for c_, r_ in zip(cur_p, ref_p) if c_ != r_}
+                names_in_fn = {n.id for n in ast.walk(fn_) if isinstance(n, ast.Name)}
+                if pm and len(cur_p) == len(ref_p) and not (set(pm.values()) & (names_in_fn - set(pm))):
+                    rename_params(fn_, pm)
+                    for m_ in prog.modules.values():
+                        for n in ast.walk(m_.tree):
+                            if isinstance(n, ast.Call) and (isinstance(n.func, ast.Attribute) and n.func.attr == new or isinstance(n.func, ast.Name) and n.func.id == new):
+                                for k in n.keywords:
+                                    if k.arg in pm:
+                                        k.arg = pm[k.arg]
     if renames:
         for m in prog.modules.values():
             for n in ast.walk(m.tree):
@@ -1229,6 +1373,87 @@ def undo_renames(prog):
                 prog.modules[oldmod].classes.setdefault(name, cands[0])
             for mn, mf in list(cands[0].methods.items()) + [(k + ".setter", v) for k, v in cands[0].setters.items()]:
                 prog.functions.setdefault(f"{cq}.{mn}", mf)
+
+
+def _instance_attrs(prog):
+    """{class qual: {attr: frozenset of (method name, 'S'|'L')}} for attributes of the first parameter stored in some method"""
+    out = {}
+    for cq, c in prog.classes.items():
+        if cq != c.qual:
+            continue
+        occ = {}
+        stored = set()
+        for mname, m in list(c.methods.items()) + [(k + ".setter", v) for k, v in c.setters.items()]:
+            if not m.params or m.is_staticmethod:
+                continue
+            me = m.params[0]
+            for n in ast.walk(m.node):
+                if isinstance(n, ast.Attribute) and isinstance(n.value, ast.Name) and n.value.id == me:
+                    kind = "L" if isinstance(n.ctx, ast.Load) else "S"
+                    occ.setdefault(n.attr, set()).add((mname, kind))
+                    if kind == "S":
+                        stored.add(n.attr)
+        out[cq] = {a: frozenset(v) for a, v in occ.items() if a in stored}
+    return out
+
+
+def undo_attribute_renames(prog):
+    """N4(c): an instance attribute of the reference that no method of the class stores any more, while the class stores a new
+    attribute in exactly the same methods and reads it in exactly the same methods (same (method, store/load) set, unique on both
+    sides): a rename.  The new name is renamed back in the whole program model - only if the old name is used nowhere in the
+    current tree and the new name nowhere in the reference (no clash), and all classes agree on the pair."""
+    from .core import Program
+    from .refswap import REF_ROOT
+
+    if not os.path.isdir(os.path.join(REF_ROOT, "formulae")):
+        return
+    cur = _instance_attrs(prog)
+    global _REF_ATTRS
+    try:
+        ref, ref_names = _REF_ATTRS
+    except NameError:
+        rp = Program(REF_ROOT, normalise=False)
+        ref = _instance_attrs(rp)
+        ref_names = {n.attr for m in rp.modules.values() for n in ast.walk(m.tree) if isinstance(n, ast.Attribute)} | \
+            {n.value for m in rp.modules.values() for n in ast.walk(m.tree) if isinstance(n, ast.Constant) and isinstance(n.value, str)}
+        _REF_ATTRS = (ref, ref_names)
+    pairs = {}
+    bad = set()
+    for cq, rattrs in ref.items():
+        cattrs = cur.get(cq)
+        if cattrs is None:
+            continue
+        # methods that exist on one side only (renamed themselves, or new helpers) count as one anonymous method
+        rmeth = {mn for sig in rattrs.values() for mn, _k in sig}
+        cmeth = {mn for sig in cattrs.values() for mn, _k in sig}
+
+        def anon(sig, known):
+            return frozenset((mn if mn in known else "?", k) for mn, k in sig)
+
+        missing = {a: anon(sig, cmeth) for a, sig in rattrs.items() if a not in cattrs}
+        fresh = {a: anon(sig, rmeth) for a, sig in cattrs.items() if a not in rattrs}
+        for old, sig in missing.items():
+            same = [a for a, s2 in fresh.items() if s2 == sig]
+            if len(same) == 1 and sum(1 for s2 in missing.values() if s2 == sig) == 1:
+                new = same[0]
+                if pairs.setdefault(new, old) != old:
+                    bad.add(new)
+    cur_names = {n.attr for m in prog.modules.values() for n in ast.walk(m.tree) if isinstance(n, ast.Attribute)}
+    renames = {new: old for new, old in pairs.items() if new not in bad and old not in cur_names and new not in ref_names}
+    if len(set(renames.values())) != len(renames):
+        return
+    if not renames:
+        return
+    for m in prog.modules.values():
+        for n in ast.walk(m.tree):
+            if isinstance(n, ast.Attribute) and n.attr in renames:
+                n.attr = renames[n.attr]
+            elif isinstance(n, ast.Call) and isinstance(n.func, ast.Name) and n.func.id in ("getattr", "hasattr", "setattr", "delattr") and len(n.args) >= 2 \
+                    and isinstance(n.args[1], ast.Constant) and n.args[1].value in renames:
+                n.args[1] = ast.copy_location(ast.Constant(value=renames[n.args[1].value]), n.args[1])
+    for new, old in sorted(renames.items()):
+        prog.renamed.append((f"attribute .{new}", f".{old}"))
+    prog._reindex()
 
 
 def normalise(prog):
